@@ -3,7 +3,11 @@
 
 package os
 
-import "strings"
+import (
+	"strings"
+
+	"github.com/hack-pad/hackpadfs"
+)
 
 // NewFSForVerif returns an FS with the given root (slash separated, no leading slash) and volume name.
 func NewFSForVerif(root, volumeName string) *FS {
@@ -27,7 +31,22 @@ func (fs *FS) ToOSPathFor(goos string, separator rune, fsPath string) (string, e
 // FromOSPathFor exposes fromOSPath with an explicit GOOS and separator. Volume names are resolved with
 // Windows conventions when goos is "windows" (drive letters and UNC shares), and are empty otherwise.
 func (fs *FS) FromOSPathFor(goos string, separator rune, osPath string) (string, error) {
+	if !isAbsFor(goos, separator, osPath) { // the gate the public FromOSPath applies with filepath.IsAbs
+		return "", &hackpadfs.PathError{Op: osPathOp, Path: osPath, Err: hackpadfs.ErrInvalid}
+	}
 	return fs.fromOSPath(goos, separator, func(p string) string { return volumeNameFor(goos, separator, p) }, osPathOp, osPath)
+}
+
+func isAbsFor(goos string, separator rune, p string) bool {
+	sep := string(separator)
+	if goos != goosWindows {
+		return strings.HasPrefix(p, sep)
+	}
+	vol := volumeNameFor(goos, separator, p)
+	if vol == "" {
+		return false
+	}
+	return strings.HasPrefix(vol, sep+sep) || strings.HasPrefix(p[len(vol):], sep)
 }
 
 func volumeNameFor(goos string, separator rune, p string) string {
